@@ -87,8 +87,9 @@ Qed.
 Theorem rust_location_recorded q ls c file r : In r (report q ls c file) ->
   exists t k cs, In t file /\ subnode (N k cs) t /\ at_call q ls k r.
 Proof.
-  unfold report, unwrap_report, clone_report, blocking_report. intros H.
+  unfold report, unwrap_report, clone_report, blocking_report, unwrap_scan, clone_scan, blocking_scan. intros H.
   apply in_app_or in H. destruct H as [H|H]; [|apply in_app_or in H; destruct H as [H|H]];
+    (destruct (enabled_of _ _); [|destruct H]);
     destruct (walk_file_origin _ _ _ _ _ H) as [t [c' [k [cs [Ht [Hs He]]]]]]; exists t, k, cs; (split; [exact Ht|]); (split; [exact Hs|]).
   - eapply emit_unwrap_at; exact He.
   - eapply emit_clone_at; exact He.
